@@ -7,7 +7,9 @@ sid, prop, src, needs = sys.argv[1:5]
 dst = os.path.join('/verif/seeded', sid)
 os.makedirs(dst, exist_ok=True)
 shutil.copy(os.path.join(src, 'patch.diff'), os.path.join(dst, 'patch.diff'))
-shutil.copy(os.path.join(src, 'demo.rs'), os.path.join(dst, 'demo.rs'))
+for d in ('demo.rs', 'demo.sh'):
+    if os.path.exists(os.path.join(src, d)):
+        shutil.copy(os.path.join(src, d), os.path.join(dst, d))
 if os.path.exists(os.path.join(src, 'NOTES.md')):
     shutil.copy(os.path.join(src, 'NOTES.md'), os.path.join(dst, 'NOTES.md'))
 meta = {
